@@ -286,6 +286,34 @@ func (ls *LockState) SameHold(a, b ssa.Instruction, field string, write bool) (b
 // It returns the offending call site description when not.
 func (p *Prog) HeldAtAllCallers(fn *ssa.Function, field string, write bool, depth int) (bool, string, int) {
 	callers := p.StaticCallers(fn)
+	if len(callers) == 0 && fn.Parent() != nil {
+		// a closure handed to a callee (e.g. a Walk callback): it runs inside the enclosing function's
+		// dynamic extent when it is created under the lock and not started as a goroutine / deferred
+		par := fn.Parent()
+		ls := p.Locks(par, nil)
+		for _, b := range par.Blocks {
+			for _, in := range b.Instrs {
+				mc, ok := in.(*ssa.MakeClosure)
+				if !ok || mc.Fn != ssa.Value(fn) {
+					continue
+				}
+				async := false
+				for _, ref := range *mc.Referrers() {
+					switch ref.(type) {
+					case *ssa.Go, *ssa.Defer:
+						async = true
+					}
+				}
+				if !async && ls.At(in).HasField(field, write) {
+					return true, "", 1
+				}
+				if depth > 0 && !async {
+					return p.HeldAtAllCallers(par, field, write, depth-1)
+				}
+				return false, "closure " + p.FuncKey(fn) + " is created without " + field + " held", 0
+			}
+		}
+	}
 	if len(callers) == 0 {
 		return false, "no static caller found for " + p.FuncKey(fn), 0
 	}
